@@ -65,7 +65,6 @@ NEEDS = {
  "C10e-evaluate-catches-nameerror-only": "a local annotation whose evaluation raises something other than NameError (callable[[int], int], mod.Missing, 1/0)",
  "C11e-workingframe-skips-check-for-generic": "a variable with one tagged and one untagged binding, the untagged binding instrumented by something else (tooled / a second probe)",
  "C15e-interning-cache-capped": "more than 1024 distinct selectors compiled between two compilations of equivalent spellings",
- "C18e-call-args-partition-else-children": "a parenthesised sequence to the left of a comma inside call arguments: f((a, b), c)",
  "C02e-unpack-fast-path-ignores-nested-targets": "a nested unpacking target (key, (lo, hi) = item) with a selector naming only nested variables",
  "C05e-untooler-releases-stack-on-zero-captures": "a function tooled both as a pure path element (empty captures) and with captures, the capture-bearing tooling removed first",
  "C06e-fits-selector-loop-hashvar-rsplit": "#loop_/#endloop_ events selected by name for a loop variable whose name contains an underscore",
